@@ -158,6 +158,9 @@ func checkHubAccounting(x *Ctx, r *hubRig) {
 	closed := map[ck]int{}
 	type pk struct{ node, ski string }
 	last := map[pk]string{}
+	lastSetupSeq := map[pk]int{}        // sequence number of the last 'set up' notification
+	lastDiscTask := map[pk]string{}     // goroutine that delivered the last 'disconnected'
+	closedSeqByTask := map[string]int{} // goroutine -> sequence number of the (last) connection end it handled
 	for _, e := range x.Events() {
 		switch e.Kind {
 		case "crash":
@@ -169,10 +172,13 @@ func checkHubAccounting(x *Ctx, r *hubRig) {
 			}
 		case "hub-closed":
 			closed[ck{e.A, e.B}]++
+			closedSeqByTask[e.Task] = e.Seq
 		case "app-setup":
 			last[pk{e.A, e.B}] = "setup"
+			lastSetupSeq[pk{e.A, e.B}] = e.Seq
 		case "app-disconnected":
 			last[pk{e.A, e.B}] = "disconnected"
+			lastDiscTask[pk{e.A, e.B}] = e.Task
 		}
 	}
 	for _, name := range r.order {
@@ -209,7 +215,15 @@ func checkHubAccounting(x *Ctx, r *hubRig) {
 			completedRegistered := registered && st == 38
 			l := last[pk{n.name, m.ski}]
 			if (l == "setup") != completedRegistered {
-				x.Violate("last-notification-inconsistent", "", fmt.Sprintf("hub %s about %s: the application's last notification is %q but a completed connection is registered: %v (registry state %d, registered %v)", n.name, m.name, l, completedRegistered, st, registered))
+				discr := ""
+				k := pk{n.name, m.ski}
+				if l == "disconnected" && completedRegistered && closedSeqByTask[lastDiscTask[k]] != 0 && closedSeqByTask[lastDiscTask[k]] < lastSetupSeq[k] {
+					// the 'disconnected' belongs to an older connection: HandleConnectionClosed had
+					// taken it out of the registry before the newer connection was set up, but
+					// delivered its notification only afterwards
+					discr = "disconnect-of-older-connection-delivered-after-newer-setup"
+				}
+				x.Violate("last-notification-inconsistent", discr, fmt.Sprintf("hub %s about %s: the application's last notification is %q but a completed connection is registered: %v (registry state %d, registered %v)", n.name, m.name, l, completedRegistered, st, registered))
 				return
 			}
 			// a registered connection must be alive: its transport open
